@@ -193,6 +193,27 @@ def driver_batch(requests: list, timeout=3000) -> list:
     return [parse_sx(l) for l in lines]
 
 
+class mem_cap:
+    """soft address-space limit around in-process evaluations whose data can blow up (sequence repetition by a
+    perturbed integer): the allocation fails with MemoryError instead of taking the machine down.  Not held across
+    subprocess launches (Lean reserves a large address range)."""
+
+    def __init__(self, nbytes):
+        self.n = nbytes
+
+    def __enter__(self):
+        import resource
+        self.old = resource.getrlimit(resource.RLIMIT_AS)
+        hard = self.old[1]
+        resource.setrlimit(resource.RLIMIT_AS, (self.n if hard == resource.RLIM_INFINITY else min(self.n, hard), hard))
+        return self
+
+    def __exit__(self, *a):
+        import resource
+        resource.setrlimit(resource.RLIMIT_AS, self.old)
+        return False
+
+
 class HarnessError(Exception):
     pass
 
